@@ -126,7 +126,19 @@ fn run_case(x: &Sx, go: &dyn Fn()) -> (Out, usize) {
         Some(k) => String::from_utf8_lossy(k).to_string(),
         None => return (Out::Bad, 0),
     };
-    let bytes = |i: usize| a.get(i).and_then(|b| b.as_bytes());
+    // a bytes argument is one atom xHEX or a list of such atoms (chunks, concatenated)
+    let bytes = |i: usize| {
+        a.get(i).and_then(|b| match b {
+            Sx::L(chunks) => {
+                let mut v = Vec::new();
+                for c in chunks {
+                    v.extend(c.as_bytes()?);
+                }
+                Some(v)
+            }
+            _ => b.as_bytes(),
+        })
+    };
     let int = |i: usize| a.get(i).and_then(|b| b.as_i64());
     macro_rules! need {
         ($e:expr) => {
@@ -227,7 +239,7 @@ fn run_case(x: &Sx, go: &dyn Fn()) -> (Out, usize) {
             if !matches!(enc, Encoding::UnicodeMapEncoding(_)) {
                 return (Out::Bad, l);
             }
-            (match Document::decode_text(&enc, &text) { Ok(s) => Out::Ok(s.chars().count()), Err(_) => Out::Err }, l)
+            (match Document::decode_text(&enc, &text) { Ok(s) => Out::Ok(s.encode_utf16().count()), Err(_) => Out::Err }, l)
         }
         "textstr" => {
             let b = need!(bytes(1));
@@ -358,14 +370,17 @@ fn spawn_kid() -> Kid {
     Kid { child, stdin, rx, err }
 }
 
-/// the allocation bound the direct evaluation uses: K * L + 1 MiB, K per entry point (see notes/C04.md)
+/// the allocation bound the direct evaluation uses: K * L + C, K and C per entry point (see notes/C04.md).
+/// Entry points that can reach LZWDecode get weezl's fixed 16 MiB stream buffer (weezl::STREAM_BUF_SIZE = 1 << 24,
+/// allocated for every LZW stream whatever its size) on top of the 1 MiB of slack.
 fn alloc_bound(kind: &str, l: usize) -> usize {
-    let k: usize = match kind {
+    let (k, c): (usize, usize) = match kind {
         // deflate expands by at most 1032:1, Vec doubling by 2
-        "pred" | "stream" | "load" | "incload" | "objstm" | "xrefstm" => 4096,
-        _ => 64,
+        "stream" | "load" | "incload" | "objstm" | "xrefstm" => (4096, (1 << 20) + (1 << 24)),
+        "pred" => (4096, 1 << 20),
+        _ => (64, 1 << 20),
     };
-    k.saturating_mul(l).saturating_add(1 << 20)
+    k.saturating_mul(l).saturating_add(c)
 }
 
 fn main() {
